@@ -181,8 +181,16 @@ def _resample_fitswcs(fitswcs, factor, offset=0):
     offset = np.asarray(offset)
     if len(offset) != fitswcs.naxis:
         raise ValueError(f"Length of offset must equal number of dimensions {fitswcs.naxis}.")
-    # Scale plate scale and shift by offset.
-    fitswcs.wcs.cdelt *= factor
-    fitswcs.wcs.crpix = (fitswcs.wcs.crpix + offset) / factor
+    # Work on a copy so the WCS passed in is left unmodified.
+    fitswcs = fitswcs.deepcopy()
+    # Scale plate scale and shift by offset. Pixel p on the resampled grid is pixel
+    # p * factor + offset on the original grid, so each pixel axis (a column of the
+    # linear transformation matrix) is scaled by its factor and, for the 1-based
+    # reference pixel, crpix - 1 = (crpix_original - 1 - offset) / factor.
+    if fitswcs.wcs.has_cd():
+        fitswcs.wcs.cd = fitswcs.wcs.cd * factor
+    else:
+        fitswcs.wcs.pc = fitswcs.wcs.get_pc() * factor
+    fitswcs.wcs.crpix = (fitswcs.wcs.crpix - 1 - offset) / factor + 1
     fitswcs._naxis = list(np.round(np.array(fitswcs._naxis) / factor).astype(int))
     return fitswcs
